@@ -185,6 +185,9 @@ pub enum Op {
     CanonElementRewrite,
     /// canon: canon result aggregate replaced under the same CID
     CanonInPlace,
+    /// canon: an element aggregate replaced under the same CID; every CID the new content names exists in the stores
+    /// (the value CID of another stored value), so only the hash check of the canon element store can notice
+    CanonElementInPlace,
 }
 
 impl Op {
@@ -196,7 +199,7 @@ impl Op {
             Op::DuplicateInto(_) => "duplicate_result", Op::KindExecFailed => "kind_executed_failed", Op::KindScalarStream => "kind_scalar_stream", Op::KindToUnused => "kind_to_unused",
             Op::FabricateInSent(_) => "fabricate_in_sent_slot", Op::CidReencode => "cid_reencode_base58", Op::SigSwap => "signature_swap", Op::SigDrop => "signature_drop",
             Op::SigReplay => "signature_other_particle", Op::SigOlder => "signature_older", Op::CanonPeerChange => "canon_peer_change", Op::CanonValuesChange => "canon_values_change",
-            Op::CanonElementRewrite => "canon_element_rewrite", Op::CanonInPlace => "canon_in_place",
+            Op::CanonElementRewrite => "canon_element_rewrite", Op::CanonInPlace => "canon_in_place", Op::CanonElementInPlace => "canon_element_in_place",
         }
     }
 }
@@ -414,6 +417,15 @@ pub fn apply(op: &Op, t: &mut TData, pos: usize, owner: &str, ctx: &TamperCtx, r
             vals.pop();
             store_mut(j, "canon_result_store").insert(cid.clone(), cr);
             Some(format!("canon aggregate under {cid}: an element removed, cid kept")) }
+        Op::CanonElementInPlace => { if kind != Kind::Canon { return None; }
+            let el = store(j, "canon_result_store").get(&cid)?.get("values")?.get(0)?.as_str()?.to_string();
+            let mut agg = store(j, "canon_element_store").get(&el)?.clone();
+            let old = agg.get("value")?.as_str()?.to_string();
+            // another value that IS in the value store (e.g. one of the attacker's own results): all references stay valid
+            let other = store(j, "value_store").as_object()?.keys().find(|k| **k != old)?.clone();
+            agg["value"] = json!(other);
+            store_mut(j, "canon_element_store").insert(el.clone(), agg);
+            Some(format!("canon element under {el}: value cid {old} -> {other} (a stored value), element cid kept")) }
     }
 }
 
@@ -424,7 +436,7 @@ pub fn catalog(kind: Kind) -> Vec<Op> {
         v.extend([Op::CidRewrite, Op::TetrapletChange(0), Op::TetrapletChange(1), Op::TetrapletChange(2), Op::TetrapletChange(3), Op::TetrapletChange(4), Op::ArgHashChange, Op::AggregateInPlace,
                   Op::SwapWith(0), Op::SwapWith(1), Op::MoveToSent(0), Op::MoveToSent(1), Op::DuplicateInto(0), Op::DuplicateInto(1), Op::KindExecFailed, Op::KindScalarStream, Op::KindToUnused]);
     }
-    if kind == Kind::Canon { v.extend([Op::CanonPeerChange, Op::CanonValuesChange, Op::CanonElementRewrite, Op::CanonInPlace]); }
+    if kind == Kind::Canon { v.extend([Op::CanonPeerChange, Op::CanonValuesChange, Op::CanonElementRewrite, Op::CanonInPlace, Op::CanonElementInPlace]); }
     v
 }
 
